@@ -1,19 +1,21 @@
 //! C06 — resolvers receive exactly the spec-coerced argument values.
 //!
-//! Space (complete product, nothing sampled): every argument declaration of S3
-//! (19 Query fields: scalars, defaults, enum, lists, nested input objects with field
-//! defaults, @oneOf, `MaybeUndefined`) × every way of supplying the argument —
+//! Space (complete product, nothing sampled): every single-argument declaration of S3
+//! (17 Query fields: scalars, argument defaults, enum, lists, nested input objects with
+//! field defaults, @oneOf, `MaybeUndefined`) × every way of supplying the argument —
 //! omitted; each of 21 literals; `$v` declared `T` / `T!` / `T = default` / `T = null`
 //! × runtime state {omitted, each of 21 JSON values incl. null}; `$v` nested inside 15
-//! list / object literal templates × the 4 declared forms × runtime menus — on the
-//! derive-built schema S3 and on its dynamic twin. Thorough tier: pairs of arguments
-//! on one field (full product of the top-level supply forms of both arguments).
+//! list / object literal templates × the 4 declared forms × runtime menus — plus the
+//! full product of the top-level forms of both arguments on the two-argument fields
+//! (quick: p1 in full, p2 on the diagonal; thorough: both in full). Every case runs on
+//! the derive-built schema S3 and on its dynamic twin.
 //!
 //! Oracle: agv-refgql `coerce_variables` (§6.1.2) + `coerce_arguments` (§6.4.1).
 //! It yields values ⇒ the resolver is invoked exactly once and echoes exactly those
 //! values; it raises ⇒ the response has ≥ 1 error and the resolver is not invoked.
-//! The reference validator only *labels* a case valid/invalid: for an invalid document
-//! a failed request without invocation is what the specification demands and agrees.
+//! Every echoed value must belong to the declared type. The reference validator only
+//! *labels* a case valid/invalid: for an invalid document a failed request without
+//! invocation is what the specification demands and agrees.
 
 mod s3;
 
@@ -663,6 +665,11 @@ fn judge(ir: &Ir, fdef: &FieldT, r: &Reference, fl: Flavour, o: &Observed) -> Ve
         (RefOut::Values(vals), Some((_, got))) => {
             let exp = expected_echo(ir, fdef, vals, fl);
             if *got == exp {
+                // (an invalid document may make the unvalidated reference produce an ill-typed value: equal is not enough)
+                if let Some(a) = out_of_type(got) {
+                    let k = fdef.args.iter().position(|x| x.name == a);
+                    return Verdict::Bad { class: "resolver-got-value-outside-declared-type", at: format!("{a}:{}", kind_of(got.get(&a))), received: "outside-declared-type", culprit: k, detail: format!("resolver received {got}; {}", show(o)) };
+                }
                 return Verdict::AgreeInvoked;
             }
             if r.ill_typed && out_of_type(got).is_none() {
